@@ -1,4 +1,82 @@
-(* Prop_C01 — statements only; see proofs/Linop*.v *)
+(* Prop_C01 — every operator's adjoint is its true adjoint.  Statements only (`exact`), over an
+   arbitrary commutative *-ring R (so in particular for real and complex x, y), for every
+   operator expression; D A = den ... noforce A is the denotation of coq/model/Linop.v. *)
 From Coq Require Import ZArith List Bool.
-From SV Require Import lib.Scalar lib.BigSum model.Linop.
+From SV Require Import lib.Scalar lib.BigSum lib.Gather model.Rearrange model.Linop
+  proofs.LinopTheory proofs.LinopLeaves proofs.Rearrange.
 Import ListNotations.
+Local Open Scope Z_scope.
+
+(* For EVERY expression tree built with Conj, +, composition (incl. the scalar and sign overloads,
+   which are compositions with Multiply leaves, and python's flattening of nested compositions):
+   if every other node L of the tree satisfies <L x, y> = <x, L^H y>, then so does the tree, with
+   the operator returned by the modelled _adjoint_linop and with shapes swapped. *)
+Theorem C01_adjoint_of_every_tree :
+  forall (R : StarRing) (arr : Z -> list Z -> R) (scal : Z -> R) (orc : linop -> (list Z -> R) -> list Z -> R) (A : linop),
+    wf A = true ->
+    nodes_ok (fun L => forall x y, inner (oshape_of L) (D R arr scal orc L x) y
+                                   = inner (ishape_of L) x (D R arr scal orc (adj L) y)) A ->
+    forall x y, inner (oshape_of A) (D R arr scal orc A x) y = inner (ishape_of A) x (D R arr scal orc (adj A) y).
+Proof. exact adj_correct. Qed.
+Print Assumptions C01_adjoint_of_every_tree.
+
+(* the node hypothesis, discharged for concrete leaf classes (every valid parameter) *)
+Theorem C01_identity_adjoint :
+  forall (R : StarRing) arr scal orc s, wf (Identity s) = true -> apair R arr scal orc (Identity s).
+Proof. exact apair_identity. Qed.
+Print Assumptions C01_identity_adjoint.
+
+Theorem C01_flip_adjoint :
+  forall (R : StarRing) arr scal orc s ax, wf (Flip s ax) = true -> apair R arr scal orc (Flip s ax).
+Proof. exact apair_flip. Qed.
+Print Assumptions C01_flip_adjoint.
+
+Theorem C01_downsample_adjoint :
+  forall (R : StarRing) arr scal orc i f sh,
+    wf (Downsample i f sh) = true -> length f = length i -> length sh = length i ->
+    Forall (fun v => 0 < v) f -> Forall (fun v => 0 <= v) sh -> apair R arr scal orc (Downsample i f sh).
+Proof. exact apair_downsample. Qed.
+Print Assumptions C01_downsample_adjoint.
+
+Theorem C01_upsample_adjoint :
+  forall (R : StarRing) arr scal orc o f sh,
+    wf (Upsample o f sh) = true -> length f = length o -> length sh = length o ->
+    Forall (fun v => 0 < v) f -> Forall (fun v => 0 <= v) sh -> apair R arr scal orc (Upsample o f sh).
+Proof. exact apair_upsample. Qed.
+Print Assumptions C01_upsample_adjoint.
+
+(* Resize / its shift-swapped partner (the operator Resize.H constructs) on expanded shapes of equal rank *)
+Theorem C01_resize_adjoint :
+  forall (R : StarRing) i1 o1 si so,
+    length i1 = length o1 -> length si = length i1 -> length so = length i1 ->
+    Forall (fun v => 0 <= v) si -> Forall (fun v => 0 <= v) so ->
+    forall x y : list Z -> R,
+      inner o1 (gatherN (zip4 resize_ax i1 o1 si so) x) y = inner i1 x (gatherN (zip4 resize_ax o1 i1 so si) y).
+Proof. exact resize_gather_adjoint. Qed.
+Print Assumptions C01_resize_adjoint.
+
+(* the generic engines: any operator given by a kernel, any gather by mutually inverse partial bijections *)
+Theorem C01_kernel_adjoint :
+  forall (R : StarRing) si so (k k' : list Z -> list Z -> R),
+    (forall o i, inbox so o -> inbox si i -> k' i o = conj (k o i)) ->
+    forall x y, inner so (kernel_op si k x) y = inner si x (kernel_op so k' y).
+Proof. exact kernel_adjoint. Qed.
+Print Assumptions C01_kernel_adjoint.
+
+Theorem C01_gather_adjoint :
+  forall (R : StarRing) si so ms ms', axes_pbij si so ms ms' ->
+    forall x y : list Z -> R, inner so (gatherN ms x) y = inner si x (gatherN ms' y).
+Proof. exact gatherN_adjoint. Qed.
+Print Assumptions C01_gather_adjoint.
+
+(* <A x, y> = <x, B y>  implies  <B y, x> = <y, A x>: the adjoint of the adjoint acts like the original *)
+Theorem C01_adjoint_is_symmetric :
+  forall (R : StarRing) si so F G, adjoint_pair R si so F G -> adjoint_pair R so si G F.
+Proof. exact adjoint_pair_sym. Qed.
+Print Assumptions C01_adjoint_is_symmetric.
+
+(* non-vacuity: a depth-3 tree mixing Resize / Flip / Downsample / Conj / + / composition is well-formed *)
+Example C01_example_tree_wf :
+  wf (Compose [Add [Conj (Flip [3; 2] (Some [-1])); Compose [Resize [3; 2] [3; 4] None None; Upsample [3; 4] [1; 2] [0; 0]]];
+               Downsample [5; 4] [2; 2] [0; 0]; Resize [5; 4] [3; 3] (Some [0; 1]) None]) = true.
+Proof. vm_compute. reflexivity. Qed.
